@@ -532,8 +532,9 @@ func deleteIndex(inIndexName string, myid int64, ctx *fasthttp.RequestCtx) ([]st
 			log.Errorf("deleteIndex : Failed to delete virtual table for indexName = %v err: %v", indexName, err)
 		}
 
-		writer.DeleteSegmentsForIndex(indexName)
-		writer.DeleteVirtualTableSegStore(indexName)
+		// an index is identified by (name, organisation): other organisations may own an index of the same name
+		writer.DeleteSegmentsForIndexOfOrg(indexName, myid)
+		writer.DeleteVirtualTableSegStoreOfOrg(indexName, myid)
 		metadata.DeleteVirtualTable(indexName, myid)
 	}
 	return convertedIndexNames, indicesNotFound
